@@ -287,7 +287,7 @@ def main(tier):
         rows += r
     nfk = 200 if tier == "quick" else 3000
     fitems = [(it, k) for k, it in enumerate(items) if it["kind"] == "def"][:nfk]
-    for r in C.fork_map(fk_worker, fitems, timeout=120):
+    for r in C.fork_map(fk_worker, fitems, timeout=600):
         if r is None or "_error" in r or "_timeout" in r:
             rep.machinery("fake-kernel run failed: %s" % str(r)[:500])
         else:
